@@ -69,6 +69,9 @@ pub struct Expect {
     pub max_fail_depth: usize,
     /// unknown keys met under a denying container (whatever the form of the report)
     pub unknown_denied: usize,
+    /// object members whose value is decoded (`IntoValue::into_value`): the tag, the members a
+    /// non-skipped field reads, map entries whose key parses, everything inside a free-form target
+    pub decodes: Vec<Path>,
 }
 
 pub struct Model<'a> {
@@ -284,6 +287,7 @@ impl<'a> Model<'a> {
                             }
                             Some(pk) => {
                                 let c = push(loc, Step::Key(key.clone()));
+                                out.decodes.push(c.clone());
                                 match self.interp(x, v, &c, out) {
                                     Some(val) => entries.push((pk, val)),
                                     None => {
@@ -369,6 +373,7 @@ impl<'a> Model<'a> {
                 let mut ok = true;
                 for (k, d) in members {
                     let c = push(loc, Step::Key(k.clone()));
+                    out.decodes.push(c.clone());
                     if !self.json_target(d, &c, out) {
                         ok = false;
                         out.handovers.push(c);
@@ -434,6 +439,7 @@ impl<'a> Model<'a> {
                         return None;
                     }
                 };
+                out.decodes.push(push(loc, Step::Key(tag.clone())));
                 let name = match &members[tag_pos].1 {
                     Doc::Str(s) => s,
                     other => {
@@ -534,6 +540,7 @@ impl<'a> Model<'a> {
                 Some(fi) => {
                     let f = &fields[fi];
                     let c = push(loc, Step::Key(k.clone()));
+                    out.decodes.push(c.clone());
                     // the field's value (and a failing try_from) is reported to the field's
                     // error type; everything else of this container to the container's
                     let outer_ty = cur_ty();
